@@ -611,8 +611,62 @@ func (n c09Norm) String() string {
 	return vm.Op(n.Op).String()
 }
 
+// c09GenManyJumps: 1..70 JUMP/JUMPIF instructions whose targets are distinct instruction
+// boundaries (so every one gets its own label), mixed with one-byte opcodes and pushes.
+func c09GenManyJumps(t *rapid.T) []byte {
+	n := rapid.SampledFrom([]int{1, 5, 25, 26, 27, 28, 40, 52, 53, 54, 70}).Draw(t, "njumps")
+	if rapid.Bool().Draw(t, "anyn") {
+		n = rapid.IntRange(1, 70).Draw(t, "njumpsany")
+	}
+	// layout first: a list of instruction lengths, then fill in targets
+	type ins struct {
+		jump bool
+		op   byte
+		data []byte
+	}
+	var prog []ins
+	for i := 0; i < n; i++ {
+		op := byte(0x63)
+		if rapid.Bool().Draw(t, "jif") {
+			op = 0x64
+		}
+		prog = append(prog, ins{jump: true, op: op})
+		switch rapid.IntRange(0, 3).Draw(t, "filler") {
+		case 0:
+			prog = append(prog, ins{op: 0x51})
+		case 1:
+			prog = append(prog, ins{op: 0x02, data: []byte{0xaa, 0xbb}})
+		}
+	}
+	starts := []uint32{0}
+	for _, in := range prog {
+		l := uint32(1 + len(in.data))
+		if in.jump {
+			l = 5
+		}
+		starts = append(starts, starts[len(starts)-1]+l)
+	}
+	// distinct boundary targets: a permutation of the boundaries (incl. the end), one per jump
+	perm := rapid.Permutation(starts).Draw(t, "targets")
+	var out []byte
+	k := 0
+	for _, in := range prog {
+		out = append(out, in.op)
+		if in.jump {
+			tgt := perm[k%len(perm)]
+			k++
+			out = append(out, byte(tgt), byte(tgt>>8), byte(tgt>>16), byte(tgt>>24))
+		} else {
+			out = append(out, in.data...)
+		}
+	}
+	return out
+}
+
 func c09GenRoundTrip(t *rapid.T) c09Prog {
 	switch rapid.IntRange(0, 9).Draw(t, "fam") {
+	case 3:
+		return c09Prog{"many-jumps", hex.EncodeToString(c09GenManyJumps(t))}
 	case 0:
 		return c09Prog{"raw", hex.EncodeToString(c09GenRaw(t))}
 	case 2:
